@@ -11,6 +11,9 @@ import Mathlib.Tactic.Ring
 import Mathlib.Tactic.FieldSimp
 import Mathlib.Algebra.Order.Field.Basic
 import Mathlib.Data.List.Basic
+import Mathlib.Data.List.Range
+import Mathlib.Data.List.Perm.Basic
+import Mathlib.Tactic.NormNum
 
 namespace Pyiga.Knots
 
@@ -123,5 +126,477 @@ theorem span_unique (t : ℕ → K) (n : ℕ) (u : K) (hmono : ∀ i j, i ≤ j 
     exact absurd (lt_of_lt_of_le h2.2 (le_trans this h1.1)) (lt_irrefl _)
 
 end Findspan
+
+
+/-! ## mesh caches -/
+
+section Mesh
+variable {α : Type} [DecidableEq α]
+
+theorem k2mAux_length : ∀ (xs : List α) (prev : α) (m : ℕ), (k2mAux prev m xs).length = xs.length := by
+  intro xs
+  induction xs with
+  | nil => intro prev m; rfl
+  | cons x xs ih =>
+    intro prev m
+    by_cases hx : x = prev <;> simp [k2mAux, hx, ih]
+
+theorem k2mAux_ge : ∀ (xs : List α) (prev : α) (m : ℕ), ∀ v ∈ k2mAux prev m xs, m ≤ v := by
+  intro xs
+  induction xs with
+  | nil => intro prev m v hv; simp [k2mAux] at hv
+  | cons x xs ih =>
+    intro prev m v hv
+    by_cases hx : x = prev
+    · simp only [k2mAux, hx, if_true, List.mem_cons] at hv
+      rcases hv with h | h
+      · omega
+      · exact ih _ _ v h
+    · simp only [k2mAux, hx, if_false, List.mem_cons] at hv
+      rcases hv with h | h
+      · omega
+      · have := ih _ _ v h; omega
+
+/-- `mesh[k2m[i]] = kv[i]`, in the offset form needed for the induction -/
+theorem mesh_k2mAux [Zero α] : ∀ (xs : List α) (prev : α) (m i : ℕ), i < xs.length →
+    (prev :: meshAux prev xs).getD ((k2mAux prev m xs).getD i 0 - m) 0 = xs.getD i 0 := by
+  intro xs
+  induction xs with
+  | nil => intro prev m i h; simp at h
+  | cons x xs ih =>
+    intro prev m i h
+    by_cases hx : x = prev
+    · subst hx
+      cases i with
+      | zero => simp [k2mAux, meshAux]
+      | succ i =>
+        have := ih x m i (by simpa using h)
+        simpa [k2mAux, meshAux] using this
+    · cases i with
+      | zero => simp [k2mAux, meshAux, hx]
+      | succ i =>
+        have hi : i < xs.length := by simpa using h
+        have h1 := ih x (m + 1) i hi
+        have hmem : (k2mAux x (m + 1) xs).getD i 0 ∈ k2mAux x (m + 1) xs := by
+          have hl : i < (k2mAux x (m + 1) xs).length := by rw [k2mAux_length]; exact hi
+          have e : (k2mAux x (m + 1) xs).getD i 0 = (k2mAux x (m + 1) xs)[i] := by
+            simp [List.getD_eq_getElem?_getD, hl]
+          rw [e]
+          exact List.getElem_mem hl
+        have hge := k2mAux_ge xs x (m + 1) _ hmem
+        obtain ⟨w, hw⟩ : ∃ w, (k2mAux x (m + 1) xs).getD i 0 = m + 1 + w :=
+          ⟨(k2mAux x (m + 1) xs).getD i 0 - (m + 1), by omega⟩
+        rw [hw] at h1
+        have e1 : m + 1 + w - (m + 1) = w := by omega
+        rw [e1] at h1
+        simp only [k2mAux, meshAux, hx, if_false, List.getD_cons_succ]
+        rw [hw]
+        have e2 : m + 1 + w - m = w + 1 := by omega
+        rw [e2, List.getD_cons_succ]
+        exact h1
+
+/-- the inverse array is non-decreasing and grows by steps of at most one -/
+theorem k2mAux_chain : ∀ (xs : List α) (prev : α) (m : ℕ),
+    List.IsChain (fun a b => a ≤ b ∧ b ≤ a + 1) (m :: k2mAux prev m xs) := by
+  intro xs
+  induction xs with
+  | nil => intro prev m; simp [k2mAux]
+  | cons x xs ih =>
+    intro prev m
+    by_cases hx : x = prev
+    · simp only [k2mAux, hx, if_true]
+      exact List.IsChain.cons_cons ⟨le_refl _, by omega⟩ (ih _ _)
+    · simp only [k2mAux, hx, if_false]
+      exact List.IsChain.cons_cons ⟨by omega, le_refl _⟩ (ih _ _)
+
+/-- the scan `np.where(k2m[1:] != k2m[:-1])` performed on the knots themselves -/
+def spanIdxSpec : ℕ → List α → List ℕ
+  | i, a :: b :: rest => if b ≠ a then i :: spanIdxSpec (i + 1) (b :: rest) else spanIdxSpec (i + 1) (b :: rest)
+  | _, _ => []
+
+theorem meshSpanIndicesAux_k2m : ∀ (xs : List α) (prev : α) (m i : ℕ),
+    meshSpanIndicesAux i (m :: k2mAux prev m xs) = spanIdxSpec i (prev :: xs) := by
+  intro xs
+  induction xs with
+  | nil => intro prev m i; simp [k2mAux, meshSpanIndicesAux, spanIdxSpec]
+  | cons x xs ih =>
+    intro prev m i
+    by_cases hx : x = prev
+    · simp [k2mAux, meshSpanIndicesAux, spanIdxSpec, hx, ih]
+    · simp [k2mAux, meshSpanIndicesAux, spanIdxSpec, hx, ih]
+
+theorem spanIdxSpec_length : ∀ (xs : List α) (prev : α) (i : ℕ),
+    (spanIdxSpec i (prev :: xs)).length = (meshAux prev xs).length := by
+  intro xs
+  induction xs with
+  | nil => intro prev i; simp [spanIdxSpec, meshAux]
+  | cons x xs ih =>
+    intro prev i
+    by_cases hx : x = prev
+    · simp [spanIdxSpec, meshAux, hx, ih]
+    · simp [spanIdxSpec, meshAux, hx, ih]
+
+theorem mem_spanIdxSpec [Zero α] : ∀ (l : List α) (i j : ℕ),
+    j ∈ spanIdxSpec i l ↔ ∃ k, j = i + k ∧ k + 1 < l.length ∧ l.getD k 0 ≠ l.getD (k + 1) 0 := by
+  intro l
+  induction l with
+  | nil => intro i j; simp [spanIdxSpec]
+  | cons a l ih =>
+    intro i j
+    cases l with
+    | nil => simp [spanIdxSpec]
+    | cons b rest =>
+      have ihh := ih (i + 1) j
+      have e : spanIdxSpec i (a :: b :: rest)
+          = if b ≠ a then i :: spanIdxSpec (i + 1) (b :: rest) else spanIdxSpec (i + 1) (b :: rest) := rfl
+      rw [e]
+      by_cases hb : b ≠ a
+      · rw [if_pos hb, List.mem_cons, ihh]
+        constructor
+        · rintro (h | ⟨k, hk, hlen, hne⟩)
+          · exact ⟨0, by omega, by simp, by simpa using fun h => hb h.symm⟩
+          · exact ⟨k + 1, by omega, by simpa using hlen, by simpa using hne⟩
+        · rintro ⟨k, hk, hlen, hne⟩
+          cases k with
+          | zero => left; omega
+          | succ k => right; exact ⟨k, by omega, by simpa using hlen, by simpa using hne⟩
+      · rw [if_neg hb, ihh]
+        constructor
+        · rintro ⟨k, hk, hlen, hne⟩
+          exact ⟨k + 1, by omega, by simpa using hlen, by simpa using hne⟩
+        · rintro ⟨k, hk, hlen, hne⟩
+          cases k with
+          | zero =>
+            exfalso; apply hne
+            have : b = a := by simpa using hb
+            simp [this]
+          | succ k => exact ⟨k, by omega, by simpa using hlen, by simpa using hne⟩
+
+end Mesh
+
+section MeshOrder
+variable {K : Type} [LinearOrder K]
+
+theorem meshAux_sorted : ∀ (xs : List K) (prev : K), (prev :: xs).Pairwise (· ≤ ·) →
+    (prev :: meshAux prev xs).Pairwise (· < ·) := by
+  intro xs
+  induction xs with
+  | nil => intro prev _; simp [meshAux]
+  | cons x xs ih =>
+    intro prev h
+    have hpx : prev ≤ x := (List.pairwise_cons.mp h).1 x (by simp)
+    have htail : (x :: xs).Pairwise (· ≤ ·) := (List.pairwise_cons.mp h).2
+    have ihx := ih x htail
+    by_cases hx : x = prev
+    · subst hx; simpa [meshAux] using ihx
+    · simp only [meshAux, hx, if_false]
+      have hlt : prev < x := lt_of_le_of_ne hpx (fun h => hx h.symm)
+      refine List.pairwise_cons.mpr ⟨?_, ihx⟩
+      intro y hy
+      rcases List.mem_cons.mp hy with h | h
+      · rw [h]; exact hlt
+      · exact lt_trans hlt ((List.pairwise_cons.mp ihx).1 y h)
+
+end MeshOrder
+
+/-! ## expansion of (breakpoint, multiplicity) lists -/
+
+section Expand
+variable {α : Type} [DecidableEq α]
+
+/-- `np.repeat(values, counts)` -/
+def expand (l : List (α × ℕ)) : List α := l.flatMap (fun q => List.replicate q.2 q.1)
+
+theorem expand_cons (q : α × ℕ) (l : List (α × ℕ)) : expand (q :: l) = List.replicate q.2 q.1 ++ expand l := by
+  simp [expand]
+
+theorem meshAux_replicate (x : α) (c : ℕ) (rest : List α) :
+    meshAux x (List.replicate c x ++ rest) = meshAux x rest := by
+  induction c with
+  | zero => simp
+  | succ c ih => simp [List.replicate_succ, meshAux, ih]
+
+theorem multsAux_replicate (x : α) (k : ℕ) (rest : List α) : ∀ c,
+    multsAux x c (List.replicate k x ++ rest) = multsAux x (c + k) rest := by
+  induction k with
+  | zero => intro c; simp
+  | succ k ih =>
+    intro c
+    simp only [List.replicate_succ, List.cons_append, multsAux, if_true]
+    rw [ih]; congr 1; omega
+
+theorem meshAux_expand : ∀ (l : List (α × ℕ)) (x : α), (∀ q ∈ l, 1 ≤ q.2) →
+    (x :: l.map Prod.fst).Pairwise (· ≠ ·) → meshAux x (expand l) = l.map Prod.fst := by
+  intro l
+  induction l with
+  | nil => intro x _ _; simp [expand, meshAux]
+  | cons q l ih =>
+    intro x hc hp
+    obtain ⟨y, c⟩ := q
+    have hc1 : 1 ≤ c := hc (y, c) (by simp)
+    obtain ⟨c', rfl⟩ : ∃ c', c = c' + 1 := ⟨c - 1, by omega⟩
+    have hxy : y ≠ x := by
+      have := (List.pairwise_cons.mp hp).1 y (by simp)
+      exact fun h => this h.symm
+    have htl : (y :: l.map Prod.fst).Pairwise (· ≠ ·) := by
+      have := (List.pairwise_cons.mp hp).2
+      simpa using this
+    rw [expand_cons]
+    simp only [List.replicate_succ, List.cons_append, meshAux, hxy, if_false, List.map_cons]
+    rw [meshAux_replicate, ih y (fun q hq => hc q (by simp [hq])) htl]
+
+theorem mesh_expand (x : α) (c : ℕ) (l : List (α × ℕ)) (hc : ∀ q ∈ l, 1 ≤ q.2)
+    (hp : (x :: l.map Prod.fst).Pairwise (· ≠ ·)) :
+    mesh (expand ((x, c + 1) :: l)) = x :: l.map Prod.fst := by
+  rw [expand_cons]
+  simp only [List.replicate_succ, List.cons_append, mesh]
+  rw [meshAux_replicate, meshAux_expand l x hc hp]
+
+theorem multsAux_expand : ∀ (l : List (α × ℕ)) (x : α) (c : ℕ), (∀ q ∈ l, 1 ≤ q.2) →
+    (x :: l.map Prod.fst).Pairwise (· ≠ ·) → multsAux x c (expand l) = c :: l.map Prod.snd := by
+  intro l
+  induction l with
+  | nil => intro x c _ _; simp [expand, multsAux]
+  | cons q l ih =>
+    intro x c hc hp
+    obtain ⟨y, k⟩ := q
+    have hk1 : 1 ≤ k := hc (y, k) (by simp)
+    obtain ⟨k', rfl⟩ : ∃ k', k = k' + 1 := ⟨k - 1, by omega⟩
+    have hxy : y ≠ x := by
+      have := (List.pairwise_cons.mp hp).1 y (by simp)
+      exact fun h => this h.symm
+    have htl : (y :: l.map Prod.fst).Pairwise (· ≠ ·) := by
+      have := (List.pairwise_cons.mp hp).2
+      simpa using this
+    rw [expand_cons]
+    simp only [List.replicate_succ, List.cons_append, multsAux, hxy, if_false, List.map_cons]
+    rw [multsAux_replicate, ih y _ (fun q hq => hc q (by simp [hq])) htl]
+    congr 2; omega
+
+theorem mults_expand (x : α) (c : ℕ) (l : List (α × ℕ)) (hc : ∀ q ∈ l, 1 ≤ q.2)
+    (hp : (x :: l.map Prod.fst).Pairwise (· ≠ ·)) :
+    mults (expand ((x, c + 1) :: l)) = (c + 1) :: l.map Prod.snd := by
+  rw [expand_cons]
+  simp only [List.replicate_succ, List.cons_append, mults]
+  rw [multsAux_replicate, multsAux_expand l x _ hc hp]
+  congr 1; omega
+
+theorem mem_expand (l : List (α × ℕ)) (b : α) (h : b ∈ expand l) : ∃ q ∈ l, b = q.1 := by
+  unfold expand at h
+  obtain ⟨q, hq, hb⟩ := List.mem_flatMap.mp h
+  exact ⟨q, hq, (List.mem_replicate.mp hb).2⟩
+
+end Expand
+
+section ExpandOrder
+variable {K : Type} [LinearOrder K]
+
+theorem pairwise_le_replicate (n : ℕ) (a : K) : (List.replicate n a).Pairwise (· ≤ ·) := by
+  induction n with
+  | zero => simp
+  | succ n ih =>
+    rw [List.replicate_succ]
+    exact List.pairwise_cons.mpr ⟨fun b hb => le_of_eq (List.mem_replicate.mp hb).2.symm, ih⟩
+
+theorem expand_sorted : ∀ (l : List (K × ℕ)), (l.map Prod.fst).Pairwise (· < ·) →
+    (expand l).Pairwise (· ≤ ·) := by
+  intro l
+  induction l with
+  | nil => intro _; simp [expand]
+  | cons q l ih =>
+    intro h
+    rw [expand_cons]
+    have h' : ∀ y ∈ l.map Prod.fst, q.1 < y := by
+      have := (List.pairwise_cons.mp (by simpa using h : (q.1 :: l.map Prod.fst).Pairwise (· < ·))).1
+      exact this
+    have ht : (l.map Prod.fst).Pairwise (· < ·) :=
+      (List.pairwise_cons.mp (by simpa using h : (q.1 :: l.map Prod.fst).Pairwise (· < ·))).2
+    refine List.pairwise_append.mpr ⟨pairwise_le_replicate _ _, ih ht, ?_⟩
+    intro a ha b hb
+    have ea : a = q.1 := (List.mem_replicate.mp ha).2
+    obtain ⟨q', hq', eb⟩ := mem_expand l b hb
+    rw [ea, eb]
+    exact le_of_lt (h' q'.1 (List.mem_map.mpr ⟨q', hq', rfl⟩))
+
+end ExpandOrder
+
+/-! ## make_knots -/
+
+section Make
+variable {K : Type} [Field K] [LinearOrder K] [IsStrictOrderedRing K]
+
+/-- the (breakpoint, multiplicity) list behind `make_knots` -/
+def mkPairs (p : ℕ) (a b : K) (n mult : ℕ) : List (K × ℕ) :=
+  (a, p + 1) :: ((linspaceInterior a b n).map (fun x => (x, mult)) ++ [(b, p + 1)])
+
+theorem makeKnots_eq_expand (p : ℕ) (a b : K) (n mult : ℕ) :
+    makeKnots p a b n mult = expand (mkPairs p a b n mult) := by
+  simp [makeKnots, mkPairs, expand, repeatEach, List.flatMap_append, List.flatMap_map]
+
+/-- the step `h = (b-a)/n` reaches `b` after `n` steps -/
+theorem last_breakpoint (a b : K) (n : ℕ) (hn : 1 ≤ n) : (n : K) * ((b - a) / (n : K)) + a = b := by
+  have hm : (n : K) ≠ 0 := by
+    have : (0 : K) < (n : K) := by exact_mod_cast hn
+    exact ne_of_gt this
+  field_simp
+  ring
+
+theorem mem_linspaceInterior (a b : K) (n : ℕ) (x : K) (hx : x ∈ linspaceInterior a b n) :
+    ∃ i, i + 1 < n ∧ x = ((i + 1 : ℕ) : K) * ((b - a) / (n : K)) + a := by
+  unfold linspaceInterior at hx
+  obtain ⟨i, hi, rfl⟩ := List.mem_map.mp hx
+  exact ⟨i, by have := List.mem_range.mp hi; omega, rfl⟩
+
+theorem breakpoints_increasing (a b : K) (n : ℕ) (hab : a < b) (hn : 1 ≤ n) :
+    (a :: (linspaceInterior a b n ++ [b])).Pairwise (· < ·) := by
+  have hpos : (0 : K) < (n : K) := by exact_mod_cast hn
+  have hh : 0 < (b - a) / (n : K) := div_pos (sub_pos.mpr hab) hpos
+  have hb := last_breakpoint a b n hn
+  have hlo : ∀ x ∈ linspaceInterior a b n, a < x := by
+    intro x hx
+    obtain ⟨i, _, rfl⟩ := mem_linspaceInterior a b n x hx
+    have : (0 : K) < ((i + 1 : ℕ) : K) := by exact_mod_cast Nat.succ_pos i
+    nlinarith
+  have hhi : ∀ x ∈ linspaceInterior a b n, x < b := by
+    intro x hx
+    obtain ⟨i, hi, rfl⟩ := mem_linspaceInterior a b n x hx
+    have : ((i + 1 : ℕ) : K) < (n : K) := by exact_mod_cast hi
+    nlinarith
+  refine List.pairwise_cons.mpr ⟨?_, List.pairwise_append.mpr ⟨?_, by simp, ?_⟩⟩
+  · intro y hy
+    rcases List.mem_append.mp hy with h | h
+    · exact hlo y h
+    · have : y = b := by simpa using h
+      rw [this]; exact hab
+  · unfold linspaceInterior
+    rw [List.pairwise_map]
+    refine List.Pairwise.imp ?_ (List.pairwise_lt_range (n := n - 1))
+    intro i j hij
+    have : ((i + 1 : ℕ) : K) < ((j + 1 : ℕ) : K) := by exact_mod_cast Nat.succ_lt_succ hij
+    nlinarith
+  · intro x hx y hy
+    have : y = b := by simpa using hy
+    rw [this]; exact hhi x hx
+
+theorem mkPairs_fst (p : ℕ) (a b : K) (n mult : ℕ) :
+    (mkPairs p a b n mult).map Prod.fst = a :: (linspaceInterior a b n ++ [b]) := by
+  simp [mkPairs, List.map_map, Function.comp_def]
+
+theorem linspaceInterior_length (a b : K) (n : ℕ) : (linspaceInterior a b n).length = n - 1 := by
+  simp [linspaceInterior]
+
+theorem repeatEach_length (xs : List K) (m : ℕ) : (repeatEach xs m).length = m * xs.length := by
+  induction xs with
+  | nil => simp [repeatEach]
+  | cons x xs ih =>
+    have : repeatEach (x :: xs) m = List.replicate m x ++ repeatEach xs m := by simp [repeatEach]
+    rw [this, List.length_append, ih, List.length_replicate, List.length_cons]; ring
+
+end Make
+
+/-! ## greville -/
+
+section Greville
+variable {K : Type} [Field K] [LinearOrder K] [IsStrictOrderedRing K]
+
+theorem clip_mem (g lo hi : K) (h : lo ≤ hi) : lo ≤ clip g lo hi ∧ clip g lo hi ≤ hi := by
+  unfold clip
+  by_cases h1 : g < lo
+  · simp only [h1, if_true]
+    have : ¬ hi < lo := not_lt.mpr h
+    simp [this, h]
+  · simp only [h1, if_false]
+    by_cases h2 : hi < g
+    · simp [h2, h]
+    · simp only [h2, if_false]
+      exact ⟨not_lt.mp h1, not_lt.mp h2⟩
+
+theorem runningAvg_bounds (kv : List K) (p i : ℕ) (lo hi : K) (hp : 1 ≤ p)
+    (hb : ∀ j, j < p → lo ≤ getK kv (i + 1 + j) ∧ getK kv (i + 1 + j) ≤ hi) :
+    lo ≤ runningAvg kv p i ∧ runningAvg kv p i ≤ hi := by
+  have hpp : (0 : K) < (p : K) := by exact_mod_cast hp
+  have key : ∀ m, m ≤ p →
+      (m : K) * lo / p ≤ (List.range m).foldl (fun acc j => acc + getK kv (i + 1 + j) * ((1 : K) / (p : K))) 0 ∧
+      (List.range m).foldl (fun acc j => acc + getK kv (i + 1 + j) * ((1 : K) / (p : K))) 0 ≤ (m : K) * hi / p := by
+    intro m
+    induction m with
+    | zero => intro _; simp
+    | succ m ih =>
+      intro hm
+      have ihm := ih (by omega)
+      have hbm := hb m (by omega)
+      rw [List.range_succ, List.foldl_append]
+      simp only [List.foldl_cons, List.foldl_nil]
+      push_cast
+      have e1 : ((m : K) + 1) * lo / p = (m : K) * lo / p + lo * (1 / (p : K)) := by field_simp
+      have e2 : ((m : K) + 1) * hi / p = (m : K) * hi / p + hi * (1 / (p : K)) := by field_simp
+      have hinv : (0 : K) ≤ 1 / (p : K) := le_of_lt (one_div_pos.mpr hpp)
+      rw [e1, e2]
+      exact ⟨add_le_add ihm.1 (mul_le_mul_of_nonneg_right hbm.1 hinv),
+        add_le_add ihm.2 (mul_le_mul_of_nonneg_right hbm.2 hinv)⟩
+  have := key p (le_refl _)
+  unfold runningAvg
+  have hne : (p : K) ≠ 0 := ne_of_gt hpp
+  rw [mul_div_assoc, mul_comm, div_mul_cancel₀ _ hne] at this
+  have h2 := this.2
+  rw [mul_div_assoc, mul_comm, div_mul_cancel₀ _ hne] at h2
+  exact ⟨this.1, h2⟩
+
+end Greville
+
+/-! ## refine (sorting) -/
+
+section Sorting
+variable {K : Type} [LinearOrder K]
+
+theorem insertSorted_perm (x : K) : ∀ l : List K, (insertSorted x l).Perm (x :: l) := by
+  intro l
+  induction l with
+  | nil => simp [insertSorted]
+  | cons y ys ih =>
+    unfold insertSorted
+    by_cases h : x ≤ y
+    · simp [h]
+    · simp only [h, if_false]
+      exact (List.Perm.cons y ih).trans (List.Perm.swap x y ys)
+
+theorem sortL_perm : ∀ l : List K, (sortL l).Perm l := by
+  intro l
+  induction l with
+  | nil => simp [sortL]
+  | cons x xs ih =>
+    unfold sortL
+    exact (insertSorted_perm x _).trans (List.Perm.cons x ih)
+
+theorem insertSorted_sorted (x : K) : ∀ l : List K, l.Pairwise (· ≤ ·) → (insertSorted x l).Pairwise (· ≤ ·) := by
+  intro l
+  induction l with
+  | nil => intro _; simp [insertSorted]
+  | cons y ys ih =>
+    intro h
+    unfold insertSorted
+    have hy := (List.pairwise_cons.mp h)
+    by_cases hxy : x ≤ y
+    · simp only [hxy, if_true]
+      refine List.pairwise_cons.mpr ⟨?_, h⟩
+      intro z hz
+      rcases List.mem_cons.mp hz with e | e
+      · rw [e]; exact hxy
+      · exact le_trans hxy (hy.1 z e)
+    · simp only [hxy, if_false]
+      refine List.pairwise_cons.mpr ⟨?_, ih hy.2⟩
+      intro z hz
+      have : z ∈ x :: ys := (insertSorted_perm x ys).subset hz
+      rcases List.mem_cons.mp this with e | e
+      · rw [e]; exact le_of_lt (not_le.mp hxy)
+      · exact hy.1 z e
+
+theorem sortL_sorted : ∀ l : List K, (sortL l).Pairwise (· ≤ ·) := by
+  intro l
+  induction l with
+  | nil => simp [sortL]
+  | cons x xs ih => unfold sortL; exact insertSorted_sorted x _ ih
+
+end Sorting
 
 end Pyiga.Knots
